@@ -577,7 +577,7 @@ func Spec() *core.Spec {
 		Race:  true,
 		Rule: "all programs of length 0..3 (quick) / 0..4 (thorough) over 10 stage kinds {pass, call next 2x, 3x, call next twice concurrently (hedged; judged on the multiset of events), short-circuit with response, short-circuit with error, replace message, replace context, fail after next, rewrite response} " +
 			"for the client chain (scripted server as transport), the server message chain and the server batch-item chain; every program run once alone and once from 16 goroutines sharing the chain (race detector on); " +
-			"the recorded enter/core/exit trace of every request must equal the trace of a reference interpreter, event for event. distinct = distinct (chain, program)",
+			"the recorded enter/core/exit trace of every request must equal the trace of a reference interpreter, event for event. the server chains also over a core that panics, returns an error or rejects the protocol version; distinct = distinct (chain, program)",
 		Required: []string{"programs_run.client", "programs_run.server-message", "programs_run.server-batch-item", "concurrent_runs", "events", "hedged_programs_run", "programs_run.core-panic", "programs_run.core-error", "programs_run.core-version"},
 		Families: []core.Family{
 			{Name: "programs", Exhaustive: true, N: func(tier string) int {
